@@ -11,6 +11,10 @@ import (
 )
 
 func init() {
+	reg(&eng.Rule{ID: "C06.matches-exact", Prop: "C06", Floor: 12,
+		Doc: "Every implementation of Matches (rule patterns of both schemas, both global rule kinds) is an exact existence scan: it returns true only where fnmatch.Match(pattern, target, 0) holds for an element of the rule's own Paths, each pattern is put to that test unconditionally, and false is returned only after all patterns were tested. The four siblings must agree.",
+		Run: c06MatchesExact})
+
 	Meta["C06"] = PropMeta{
 		Explanation: "Static necessary conditions of 'rules consulted for a path are exactly those of the documented pre-order delegation walk', decided on every CFG path of State.findVerifiersForPathIfProtected (and its sibling gittuf.(*Repository).ListRules): a verifier is produced only on the true edge of delegation.Matches(path) and carries that same delegation's ID, threshold and principal ids; a delegated rule file is expanded only under Matches ∧ !seenRoles[ID] ∧ HasTargetsRole(ID) and is marked seen before the next rule is dequeued (termination: seenRoles grows strictly over a finite set); the delegated group is prepended (depth first); a matching terminating rule leaves only the current group; the inner loop stops before the trailing allow rule; 'unprotected' is reported only when no verifier was found. Equality with the reference walk over all graphs/paths is NOT decided.",
 		Decides:     []string{"match gates verifier creation", "verifier fields derive from the matched delegation", "expand-once guards and seen marking", "depth-first prepend", "terminating rule cuts only its own group", "allow rule never consulted", "unprotected iff no verifiers", "sibling agreement with ListRules"},
@@ -461,4 +465,42 @@ func c06Siblings(c *Ctx, r *R) {
 		}
 	}
 	r.Check(pre, "prepends", fn.Pos(), "delegated rules are placed in front of the pending rules (depth first)", "ListRules no longer prepends delegated rules (pre-order lost)")
+}
+
+func c06MatchesExact(c *Ctx, r *R) {
+	for _, spec := range []string{"(*internal/tuf/v01.Delegation).Matches", "(*internal/tuf/v02.Delegation).Matches", "(*internal/tuf/v01.GlobalRuleThreshold).Matches", "(*internal/tuf/v01.GlobalRuleBlockForcePushes).Matches"} {
+		fn := r.Fn(spec)
+		if fn == nil {
+			continue
+		}
+		r.Site(1)
+		short := strings.TrimSuffix(strings.TrimPrefix(spec, "(*internal/tuf/"), ").Matches")
+		var tests []ssa.Instruction
+		okArgs := true
+		for _, k := range eng.Calls(fn, false) {
+			if !strings.HasSuffix(k.Name(), "fnmatch.Match") {
+				continue
+			}
+			tests = append(tests, k.Instr)
+			// Match(pattern element of receiver.Paths, the parameter, 0)
+			pat := false
+			for _, root := range eng.Roots(k.Arg(0)) {
+				if u, ok := root.(*ssa.UnOp); ok {
+					if ia, ok := u.X.(*ssa.IndexAddr); ok && eng.PField("Paths", nil)(ia.X) {
+						pat = true
+					}
+				}
+			}
+			flags, isC := eng.ConstInt(k.Arg(2))
+			if !pat || len(fn.Params) < 2 || eng.Strip(k.Arg(1)) != ssa.Value(fn.Params[1]) || !isC || flags != 0 {
+				okArgs = false
+			}
+		}
+		r.Check(len(tests) == 1 && okArgs, "matcher:"+short, fn.Pos(), "fnmatch.Match(pattern of Paths, target, 0)", "Matches does not test fnmatch.Match(<element of the rule's Paths>, <the target>, 0)")
+		isMatch := func(v ssa.Value) bool {
+			k, _, ok := eng.RootCall(v)
+			return ok && strings.HasSuffix(k.Name(), "fnmatch.Match")
+		}
+		existsScanT(c, r, "scan:"+short, fn, eng.PField("Paths", nil), []eng.Pat{isMatch}, short+".Matches", tests)
+	}
 }
